@@ -10,6 +10,7 @@ import (
 	"gitlab.com/gomidi/midi/v2"
 	"gitlab.com/gomidi/midi/v2/smf"
 
+	"verif/harness/gen"
 	"verif/harness/mon"
 )
 
@@ -234,7 +235,7 @@ func init() {
 			"derived views (GetNoteStart, GetNoteEnd, GetChannel, and the wrappers GetMetaKey, GetMetaMeter) are checked for agreement with their base, not for exclusivity",
 			"sampled FF tt strings keep the embedded length VLQ at most 3 bytes: String() allocates the declared text length and the property is about panics, not allocation",
 		},
-		Require: []string{"every_length_strings", "strings_midi", "strings_smf", "meta_strings", "strings_accepted_by_an_accessor", "cat:midi:channel", "cat:midi:syscommon", "cat:midi:realtime", "cat:midi:sysex", "cat:midi:unknown", "cat:smf:meta", "patterned_long_strings", "byte_substitution_strings"},
+		Require: []string{"every_length_strings", "standard_message_substitutions", "strings_midi", "strings_smf", "meta_strings", "strings_accepted_by_an_accessor", "cat:midi:channel", "cat:midi:syscommon", "cat:midi:realtime", "cat:midi:sysex", "cat:midi:unknown", "cat:smf:meta", "patterned_long_strings", "byte_substitution_strings"},
 		Run:     runC08,
 	})
 }
@@ -436,6 +437,53 @@ func runC08(c *mon.Ctx) {
 			c.Eval(n - 1)
 		}
 	})
+	// standard messages (universal sysex, channel mode, RPN, ...) with EVERY byte position replaced by every
+	// value: string forms that interpret the content of well-known messages see every out-of-range field
+	var wk [][]byte
+	wk = append(wk, gen.WellKnownSysex...)
+	wk = append(wk, gen.WellKnownChannel...)
+	wk = append(wk, gen.WellKnownSystem...)
+	c.Each("standard-message-substitution", int64(len(wk)), func(i int64, _ *mon.Rand) {
+		m := wk[i]
+		if len(m) > 24 {
+			return
+		}
+		var n int64
+		for pos := 0; pos < len(m); pos++ {
+			mm := append([]byte(nil), m...)
+			for v := 0; v < 256; v++ {
+				mm[pos] = byte(v)
+				c.Count("cat:smf:"+classifySMF(c, mm), 1)
+				c.Count("cat:midi:"+classifyMidi(c, mm), 1)
+				n++
+			}
+		}
+		// and two positions at once for the short ones (all pairs of positions, extreme values)
+		if len(m) <= 12 {
+			ext := []byte{0x00, 0x7F, 0x80, 0xFF, 0xF0, 0xF7}
+			for p1 := 1; p1 < len(m); p1++ {
+				for p2 := p1 + 1; p2 < len(m); p2++ {
+					for _, v1 := range ext {
+						for _, v2 := range ext {
+							mm := append([]byte(nil), m...)
+							mm[p1], mm[p2] = v1, v2
+							classifySMF(c, mm)
+							classifyMidi(c, mm)
+							n++
+						}
+					}
+				}
+			}
+		}
+		c.Count("standard_message_substitutions", n)
+		c.Count("strings_smf", n)
+		c.Count("strings_midi", n)
+		c.Enumerated(n)
+		if n > 0 {
+			c.Eval(n - 1)
+		}
+	})
+
 	// every length: sysex messages F0 <n data bytes> F7 for every n up to 16500 (thorough: 70000), and the
 	// other long message forms (unterminated F0, F7 escape, text meta, sequencer data) at every 5th length:
 	// string forms are built in buffers whose sizes have thresholds of their own
